@@ -6,6 +6,8 @@ import (
 	"go/token"
 	"os"
 	"path/filepath"
+	"regexp"
+	"strconv"
 	"strings"
 )
 
@@ -111,16 +113,71 @@ func genG19(repo string, w *Out) error {
 	}
 	body = strings.Join(g07like(rf, rb.Body.List), " ; ")
 	var pfx, ph string
+	foldRe := regexp.MustCompile(`^if len\(s\) >= (\d+) && strings\.EqualFold\(s\[:(\d+)\], ("[^"]*")\) \{ return ("[^"]*") \} ; return s$`)
 	if n, _ := fmt.Sscanf(body, `if strings.HasPrefix(s, %q) { return %q } ; return s`, &pfx, &ph); n == 2 {
 		w.DefStr("base64_prefix", pfx)
 		w.DefStr("base64_placeholder", ph)
 		w.DefBool("redact_base64_hides_payload", true)
+		w.DefBool("redact_prefix_fold", false)
+	} else if m := foldRe.FindStringSubmatch(body); m != nil {
+		pfx, _ = strconv.Unquote(m[3])
+		ph, _ = strconv.Unquote(m[4])
+		if m[1] != strconv.Itoa(len(pfx)) || m[2] != m[1] {
+			return fmt.Errorf("RedactBase64: head length %s/%s does not match the prefix %q", m[1], m[2], pfx)
+		}
+		w.DefStr("base64_prefix", pfx)
+		w.DefStr("base64_placeholder", ph)
+		w.DefBool("redact_base64_hides_payload", true)
+		w.DefBool("redact_prefix_fold", true)
 	} else if body == "return s" {
+		w.DefBool("redact_prefix_fold", false)
 		w.DefStr("base64_prefix", "data:")
 		w.DefStr("base64_placeholder", "")
 		w.DefBool("redact_base64_hides_payload", false)
 	} else {
 		return fmt.Errorf("RedactBase64: body %q is not a shape the model knows", body)
+	}
+	// the accepting side: readurl.go ReadFileOrBase64
+	uf, err := Parse(repo, "readurl.go")
+	if err != nil {
+		return err
+	}
+	rfb, err := uf.Func("ReadFileOrBase64")
+	if err != nil {
+		return err
+	}
+	var first *ast.IfStmt
+	for _, st := range rfb.Body.List {
+		if is, ok := st.(*ast.IfStmt); ok {
+			first = is
+			break
+		}
+	}
+	if first == nil {
+		return fmt.Errorf("ReadFileOrBase64: no prefix test found")
+	}
+	cond := uf.Src(first.Cond)
+	var rp string
+	if n, _ := fmt.Sscanf(cond, `strings.HasPrefix(name, %q)`, &rp); n == 1 {
+		w.DefStr("reader_data_prefix", rp)
+		w.DefBool("reader_prefix_fold", false)
+	} else if cond == "len(name) >= len(scheme) && strings.EqualFold(name[:len(scheme)], scheme)" {
+		found := false
+		ast.Inspect(rfb.Body, func(n ast.Node) bool {
+			if vs, ok := n.(*ast.ValueSpec); ok && len(vs.Names) == 1 && vs.Names[0].Name == "scheme" && len(vs.Values) == 1 {
+				if v, ok := StringLit(vs.Values[0]); ok {
+					rp, found = v, true
+				}
+			}
+			return true
+		})
+		if !found {
+			return fmt.Errorf("ReadFileOrBase64: constant `scheme` not found")
+		}
+		w.DefStr("reader_data_prefix", rp)
+		w.DefBool("reader_prefix_fold", true)
+	} else {
+		return fmt.Errorf("ReadFileOrBase64: prefix test %q is not a shape the model knows", cond)
 	}
 	rurl, err := rf.Func("RedactURL")
 	if err != nil {
